@@ -458,6 +458,13 @@ def ledger_ownership(ck, an, prefix="S7"):
                     continue
                 par = getattr(e.node, "_parent", None)
                 ok, why = _alias_ok(e.node, par)
+                if not ok and isinstance(par, ast.Assign) and len(par.targets) == 1 and isinstance(par.targets[0], ast.Name) and par.value is e.node:
+                    # a local alias: fine when the local itself is only used in non-escaping contexts and never re-bound to something that outlives the call
+                    nm = par.targets[0].id
+                    uses = [x for x in walk_function(f.node) if isinstance(x, ast.Name) and x.id == nm and isinstance(x.ctx, ast.Load)]
+                    res = [_alias_ok(x, getattr(x, "_parent", None)) for x in uses]
+                    if uses and all(r[0] for r in res):
+                        ok, why = True, f"local alias `{nm}` used only as {sorted({r[1] for r in res})}"
                 if not ok:
                     ck.fail("ALIAS", f"{prefix}.ledger-does-not-escape", f.short, e.loc, f"the live ledger Broker.{attr} escapes: {why}", construct=stmt_text(e.node))
                 else:
